@@ -183,7 +183,11 @@ def bait_programs(rng, n):
     out = []
     for _ in range(n):
         atoms = ["a", "b", "c", "d", "e", "f", "g", "s.len", "t.len", "r.len", "s[0]", "s[1]", "s[7]", "t[299]", "t[300]", "r[1]", "r[2]", "$last", "s[s.len]", "s[a]"]
-        cmp_ = lambda: "%s %s %s" % ((rng.choice(atoms), rng.choice(["==", "!=", "<", ">", "<=", ">="]), rng.choice(consts))[:: rng.choice([1, -1])])
+        def cmp_():
+            if rng.random() < 0.12:
+                a = rng.choice(atoms)          # an expression compared with itself
+                return "%s %s %s" % (a, rng.choice(["==", "!=", "<", ">="]), a)
+            return "%s %s %s" % ((rng.choice(atoms), rng.choice(["==", "!=", "<", ">", "<=", ">="]), rng.choice(consts))[:: rng.choice([1, -1])])
         stmts = []
         for _ in range(rng.choice([3, 5, 8])):
             k = rng.random()
